@@ -23,6 +23,16 @@ Theorem C05_new_pat_getters_total : forall b p, Pat.new_pat b = Ok p ->
 Proof. exact new_pat_getters_total. Qed.
 Print Assumptions C05_new_pat_getters_total.
 
+(* the length clip of /repo commit 3223166 (NumPrograms clips to len - pointer_field, ProgramMap starts at
+   8 + pointer_field) at its edges; the general statement is C05_new_pat_getters_total: no panic on ANY bytes *)
+Theorem C05_pat_pointer_clip_examples :
+  Pat.new_pat clip_b1 = Ok clip_b1 /\ Pat.num_programs clip_b1 = Ok (-62)%Z /\ Pat.program_map clip_b1 = Ok [] /\
+  Pat.spts_pmt_pid clip_b1 = Err E.Other /\
+  Pat.new_pat clip_b2 = Ok clip_b2 /\ Pat.num_programs clip_b2 = Ok 1%Z /\ Pat.program_map clip_b2 = Ok [(7, 0x123)] /\
+  Pat.spts_pmt_pid clip_b2 = Ok 0x123.
+Proof. exact pointer_clip_examples. Qed.
+Print Assumptions C05_pat_pointer_clip_examples.
+
 Theorem C05_read_pat_total : forall script, script_ok script -> safe (Pat.read_pat script).
 Proof. exact read_pat_total. Qed.
 Print Assumptions C05_read_pat_total.
